@@ -43,6 +43,10 @@ pub trait FieldAccessor {
     fn get_i64_at(&self, field: &str, index: usize) -> Option<i64>;
     fn get_u64_at(&self, field: &str, index: usize) -> Option<u64>;
     fn get_f64_at(&self, field: &str, index: usize) -> Option<f64>;
+    /// Boolean cell of a typed boolean column; accessors without such columns keep the default.
+    fn get_bool_at(&self, _field: &str, _index: usize) -> Option<bool> {
+        None
+    }
     fn event_count(&self) -> usize;
 }
 
@@ -256,6 +260,12 @@ impl<'a> FieldAccessor for PreparedAccessor<'a> {
         self.columns
             .get(field)
             .and_then(|col| col.get_f64_at(index))
+    }
+
+    fn get_bool_at(&self, field: &str, index: usize) -> Option<bool> {
+        self.columns
+            .get(field)
+            .and_then(|col| col.get_bool_at(index))
     }
 
     fn event_count(&self) -> usize {
@@ -510,7 +520,15 @@ impl Condition for StringCondition {
     }
 
     fn evaluate_at(&self, accessor: &dyn FieldAccessor, index: usize) -> bool {
-        if let Some(val) = accessor.get_str_at(&self.field, index) {
+        // A boolean literal reaches us as the text `true` / `false`; a typed boolean column has
+        // no string view, so read the cell as a boolean and compare its text, as the in-memory
+        // path does.
+        let cell = accessor.get_str_at(&self.field, index).or_else(|| {
+            accessor
+                .get_bool_at(&self.field, index)
+                .map(|b| if b { "true" } else { "false" })
+        });
+        if let Some(val) = cell {
             match self.operation {
                 CompareOp::Eq => val == self.value,
                 CompareOp::Neq => val != self.value,
